@@ -1,5 +1,6 @@
 import KV.Generated.Sites
 import KV.Generated.Orders
+import KV.Generated.OwnOutput
 /-! # C11 — generation is deterministic and idempotent
 
 Property statements only.  The sources of run-to-run variation a Go program has are goroutine scheduling,
@@ -121,5 +122,12 @@ theorem C11_leftover_ignored (files extra : List SrcFile) (hg : extra.all (·.ge
 /-- non-vacuity: an unguarded registering loop *would* see the left-over file -/
 example : seedNames [⟨true, false⟩] ([⟨false, ["App"]⟩] ++ [⟨true, ["app0"]⟩]) ≠ seedNames [⟨true, false⟩] [⟨false, ["App"]⟩] := by
   decide
+
+/-- the file a run is about to overwrite takes no part in type checking the package: `initializePackages` installs a
+    `ParseFile` hook that, for the path `outputFileName(filename)`, drops the declarations and imports of whatever a
+    previous run left there (regenerated from parser.go; before fix 59c6e51 there was no such hook and a stale injector
+    could win over a user declaration of the same name) -/
+theorem C11_own_output_not_type_checked :
+    Gen.ownOutputHook = true ∧ (["Decls", "Imports"].all (fun f => Gen.ownOutputBlankedFields.contains f)) = true := by decide
 
 end C11
